@@ -280,6 +280,67 @@ def table() -> int:
     return 0
 
 
+def cross(jobs: int = 16, only_neutral=(), only_break=()) -> int:
+    """Every kept breaking change on top of every kept refactoring (where both patches still apply): the bug is then hidden
+    in a differently written tree.  Where the change's own demonstration still fails (the bug is still there) and the
+    repository's tests still pass, the target check must still report it.  Scratch copies live under a temporary directory
+    and are removed; nothing is written to /verif/seeded."""
+    import concurrent.futures as cf
+    root = os.path.join(VERIF, "seeded")
+    neutrals, breaks = [], []
+    for name in sorted(os.listdir(root)):
+        mp = os.path.join(root, name, "meta.json")
+        if not os.path.isfile(mp) or not os.path.isfile(os.path.join(root, name, "patch.diff")):
+            continue
+        m = json.load(open(mp))
+        if m.get("kind") == "neutral-refactor":
+            if not only_neutral or any(name.startswith(o) for o in only_neutral):
+                neutrals.append(name)
+        elif m.get("property"):
+            if not only_break or any(name.startswith(o) for o in only_break):
+                breaks.append((name, m["property"]))
+    tmp = tempfile.mkdtemp(prefix="vstatic-cross-")
+    base = os.path.join(tmp, "base")
+    os.makedirs(base)
+    sh(["bash", "-c", f"git -C {REPO} archive HEAD pykdebugparser tests | tar -x -C {base}"])
+
+    def one(job):
+        nname, bname, prop = job
+        wd = tempfile.mkdtemp(prefix="w-", dir=tmp)
+        try:
+            sh(["cp", "-r", os.path.join(base, "pykdebugparser"), os.path.join(base, "tests"), wd])
+            for pn in (nname, bname):
+                rc, out = sh(["git", "apply", "--whitespace=nowarn", os.path.join(root, pn, "patch.diff")], cwd=wd)
+                if rc:
+                    return (nname, bname, prop, "inapplicable", "")
+            env = dict(os.environ, PYTHONDONTWRITEBYTECODE="1", PYTHONPATH=wd)
+            os.makedirs(os.path.join(wd, "out"), exist_ok=True)
+            shutil.copy(os.path.join(root, bname, "demo_test.py"), os.path.join(wd, "out", "demo_test.py"))
+            rc_demo, _ = sh([PY, "-m", "pytest", "-q", "-x", "-p", "no:cacheprovider", "out/demo_test.py"], cwd=wd, env=env)
+            if rc_demo == 0:
+                return (nname, bname, prop, "bug-not-manifest", "")
+            rc_suite, _ = sh([PY, "-m", "pytest", "-q", "-x", "-p", "no:cacheprovider", "tests"], cwd=wd, env=env)
+            if rc_suite:
+                return (nname, bname, prop, "suite-fails", "")
+            res = run_checks(wd, os.path.join(wd, "vout"), [prop])[prop]
+            status = {1: "caught", 0: "MISSED", 2: "undecided"}.get(res["exit"], f"exit {res['exit']}")
+            return (nname, bname, prop, status, (res["errors"] or res["fails"] or [""])[0][:200])
+        finally:
+            shutil.rmtree(wd, ignore_errors=True)
+    jobs_l = [(n, b, p) for n in neutrals for b, p in breaks]
+    tally = {}
+    try:
+        with cf.ThreadPoolExecutor(max_workers=jobs) as ex:
+            for nname, bname, prop, status, detail in ex.map(one, jobs_l):
+                tally[status] = tally.get(status, 0) + 1
+                if status in ("MISSED", "undecided"):
+                    print(f"{status}: {bname} (target {prop}) on top of {nname}: {detail}")
+    finally:
+        shutil.rmtree(tmp, ignore_errors=True)
+    print("cross:", ", ".join(f"{k}={v}" for k, v in sorted(tally.items())))
+    return 1 if tally.get("MISSED") else 0
+
+
 if __name__ == "__main__":
     if len(sys.argv) >= 3 and sys.argv[1] == "batch":
         sys.exit(batch(sys.argv[2]))
@@ -291,5 +352,10 @@ if __name__ == "__main__":
         sys.exit(confirm_neutral(sys.argv[2], sys.argv[3]))
     if len(sys.argv) >= 2 and sys.argv[1] == "rerun":
         sys.exit(rerun(tuple(sys.argv[2:])))
+    if len(sys.argv) >= 2 and sys.argv[1] == "cross":
+        ns = tuple(a for a in sys.argv[2:] if a.startswith("N"))
+        bs = tuple(a for a in sys.argv[2:] if not a.startswith("N"))
+        sys.exit(cross(16, ns, bs))
     print(__doc__)
     sys.exit(2)
+
